@@ -254,13 +254,15 @@ def denseAt (dflt : ν) : (d : Nat) → Tree κ ν d → List κ → ν
     | none => dflt
 
 /-- `Fiber.__add__(fiber)`: over `self | other`, `self_val + other_val` (a `Payload` sum at the
-    leaves, recursively `Fiber.__add__` above), absent sides replaced by `_createDefault`. -/
-def addT [Add ν] (dflt : ν) : (d : Nat) → Tree κ ν d → Tree κ ν d → Tree κ ν d
+    leaves, recursively `Fiber.__add__` above); each operand presents what is non-default for ITS
+    default (`dfa`, `dfb`) and an absent side is replaced by that operand's `_createDefault`;
+    the result carries `self`'s default `dfa`. -/
+def addT [Add ν] (dfa dfb : ν) : (d : Nat) → Tree κ ν d → Tree κ ν d → Tree κ ν d
   | 0, x, y => (show ν from x) + (show ν from y)
   | d + 1, a, b =>
     show List (κ × Tree κ ν d) from
-    (orMerge (present dflt d a) (present dflt d b)).map
-      (fun r => (r.1, addT dflt d (r.2.2.1.getD (dfltTree dflt d)) (r.2.2.2.getD (dfltTree dflt d))))
+    (orMerge (present dfa d a) (present dfb d b)).map
+      (fun r => (r.1, addT dfa dfb d (r.2.2.1.getD (dfltTree dfa d)) (r.2.2.2.getD (dfltTree dfb d))))
 
 /-- `Fiber.__mul__(fiber)`: over `self & other`, `a_val * b_val`. -/
 def mulT [Mul ν] (dflt : ν) : (d : Nat) → Tree κ ν d → Tree κ ν d → Tree κ ν d
@@ -332,7 +334,7 @@ def imulT [Mul ν] (dflt : ν) (d : Nat) (a b : Tree κ ν (d + 1)) : Tree κ ν
 
 /-- elementwise sum over the union: where either side is non-default, the sum (the other side
     contributing its default); elsewhere the default -/
-def addExpect [Add ν] (dflt x y : ν) : ν := if x ≠ dflt ∨ y ≠ dflt then x + y else dflt
+def addExpect [Add ν] (dfa dfb x y : ν) : ν := if x ≠ dfa ∨ y ≠ dfb then x + y else dfa
 
 /-- elementwise product over the intersection -/
 def mulExpect [Mul ν] (dflt x y : ν) : ν := if x ≠ dflt ∧ y ≠ dflt then x * y else dflt
